@@ -69,6 +69,9 @@ type job struct {
 	Iters    int       `json:"iters,omitempty"`
 	StopFile string    `json:"stop_file,omitempty"`
 	NeverKey string    `json:"never_key,omitempty"`
+	SyncDir  string    `json:"sync_dir,omitempty"` // lockstep between storers: meet before every store
+	Self     int       `json:"self,omitempty"`
+	Peers    int       `json:"peers,omitempty"`
 }
 
 type verifyResult struct {
@@ -82,8 +85,9 @@ type verifyResult struct {
 }
 
 type concResult struct {
-	Role       string     `json:"role"`
-	Stores     int        `json:"stores"`
+	Role        string     `json:"role"`
+	Stores      int        `json:"stores"`
+	BarriersMet int        `json:"barriers_met"`
 	Hits       int        `json:"hits"`
 	Misses     int        `json:"misses"`
 	NeverHits  int        `json:"never_hits"`
@@ -220,6 +224,9 @@ func TestC12Child(t *testing.T) {
 			}
 			for it := 0; it < j.Iters; it++ {
 				ks := j.Keys[it%len(j.Keys)]
+				if j.SyncDir != "" && barrier(j.SyncDir, it, j.Self, j.Peers) {
+					res.BarriersMet++
+				}
 				c.Store(cachelib.Target(ks.Label), mustKey(ks.KeyHex), ks.Set.Outs)
 				res.Stores++
 			}
@@ -257,6 +264,25 @@ func TestC12Child(t *testing.T) {
 		fmt.Println("unknown op", j.Op)
 		os.Exit(3)
 	}
+}
+
+// barrier makes the storers of one round meet before iteration it (synchronisation only; when a peer
+// does not show up within a bounded number of polls the storer just goes on).
+func barrier(dir string, it, self, peers int) bool {
+	os.WriteFile(filepath.Join(dir, fmt.Sprintf("b%d.%d", it, self)), nil, 0o644)
+	for spin := 0; spin < 20000; spin++ {
+		all := true
+		for p := 0; p < peers; p++ {
+			if _, err := os.Stat(filepath.Join(dir, fmt.Sprintf("b%d.%d", it, p))); err != nil {
+				all = false
+			}
+		}
+		if all {
+			return true
+		}
+		time.Sleep(200 * time.Microsecond)
+	}
+	return false
 }
 
 // listCache lists the entry-level names in a cache directory (depth 3: pkg/name/entry).
@@ -753,30 +779,44 @@ func killCase(r *lib.Run, base string, idx int, rng *rand.Rand) {
 	}
 }
 
-// concCase: processes sharing one cache directory, each with its own repo root.
+// concCase: processes sharing one cache directory, each with its own repo root. Two kinds of round:
+//   - store-vs-retrieve (even idx/2): one storer re-storing two keys (one of them existing beforehand)
+//     while three retrievers retrieve them;
+//   - store-vs-store (odd idx/2): two storers storing the same fresh keys in lockstep, no retrievers;
+//     a fresh process inspects every key afterwards.
 func concCase(r *lib.Run, base string, idx int, rng *rand.Rand) {
 	compress := idx%2 == 1
-	storers := 1 + (idx/2)%2
-	retrievers := 3 - storers + 1 // 3 or 2 -> 4 processes per round
+	twoStorers := (idx/2)%2 == 1
 	mode := modeName(compress)
+	kind := "store-vs-retrieve"
+	storers, retrievers, nkeys, iters := 1, 3, 2, 16
+	if twoStorers {
+		kind = "store-vs-store"
+		storers, retrievers, nkeys, iters = 2, 0, 10, 10
+	}
 	dir := filepath.Join(base, fmt.Sprintf("conc%d", idx))
 	os.MkdirAll(dir, 0o755)
 	cd := filepath.Join(dir, "cache")
 	os.MkdirAll(cd, 0o755)
-	big := rng.Intn(2) == 0
+	big := !twoStorers && rng.Intn(2) == 0
 	var keys []keySpec
-	for k := 0; k < 2; k++ {
+	var sets []cachelib.OutSet
+	for k := 0; k < nkeys; k++ {
 		label := fmt.Sprintf("//cc%d/k%d:t", idx, k)
 		var set cachelib.OutSet
-		if big && k == 0 {
+		switch {
+		case big && k == 0:
 			set = cachelib.OutSet{Outs: []string{"d", "f"}, Files: map[string]string{"f": "single file"}}
 			nf := 100 + rng.Intn(200)
 			for i := 0; i < nf; i++ {
 				set.Files[fmt.Sprintf("d/s%d/f%04d", i%3, i)] = fmt.Sprint(i, label)
 			}
-		} else {
+		case twoStorers && k >= 2:
+			set = sets[k%2] // a few shapes, many keys
+		default:
 			set = cachelib.GenOutSet(rng, true, false)
 		}
+		sets = append(sets, set)
 		tgt := cachelib.Target(label)
 		expRoot := filepath.Join(dir, "expect")
 		cachelib.Materialize(cachelib.OutDir(expRoot, tgt), set)
@@ -784,13 +824,19 @@ func concCase(r *lib.Run, base string, idx int, rng *rand.Rand) {
 		keys = append(keys, keySpec{Label: label, KeyHex: hex.EncodeToString(cachelib.Key(label+set.Describe(), 20)), Set: set, Expect: want})
 	}
 	never := hex.EncodeToString(cachelib.Key(fmt.Sprint("never", idx), 20))
-	// key 0 exists beforehand (every store of it is a store over an existing entry); key 1 does not.
-	if err := preStore(parentRoot, cd, compress, keys[0]); err != nil {
-		r.Inconclusive("conc case: pre-store failed: " + err.Error())
-		return
+	if !twoStorers {
+		// key 0 exists beforehand (every store of it is a store over an existing entry); key 1 does not.
+		if err := preStore(parentRoot, cd, compress, keys[0]); err != nil {
+			r.Inconclusive("conc case: pre-store failed: " + err.Error())
+			return
+		}
 	}
 	stop := filepath.Join(dir, "stop")
-	iters := 16
+	syncDir := ""
+	if twoStorers {
+		syncDir = filepath.Join(dir, "sync")
+		os.MkdirAll(syncDir, 0o755)
+	}
 	glob := ""
 	if big {
 		glob = ":dircache.*"
@@ -809,7 +855,7 @@ func concCase(r *lib.Run, base string, idx int, rng *rand.Rand) {
 			defer swg.Done()
 			rf := filepath.Join(dir, fmt.Sprintf("storer%d.json", s))
 			res := runJob(dir, fmt.Sprintf("storer%d", s), job{Op: "conc", Role: "storer", Root: filepath.Join(dir, fmt.Sprintf("s%d", s)), CacheDir: cd, Compress: compress,
-				Keys: keys, Iters: iters, Result: rf}, []string{fmt.Sprintf("VERIF_HOOK_DELAY=%d:0.5:1500%s", delaySeeds[s], glob)})
+				Keys: keys, Iters: iters, Result: rf, SyncDir: syncDir, Self: s, Peers: storers}, []string{fmt.Sprintf("VERIF_HOOK_DELAY=%d:0.5:1500%s", delaySeeds[s], glob)})
 			if readJSON(rf, &sres[s]) != nil {
 				failed.Store(fmt.Sprintf("storer%d", s), tail(res.Stderr))
 			}
@@ -839,13 +885,14 @@ func concCase(r *lib.Run, base string, idx int, rng *rand.Rand) {
 	if nfail > 0 {
 		return
 	}
-	r.Case(fmt.Sprintf("conc/%s/storers=%d/%s|%s", mode, storers, keys[0].Set.Describe(), keys[1].Set.Describe()), true)
+	r.Case(fmt.Sprintf("conc/%s/%s/%s|%s", mode, kind, keys[0].Set.Describe(), keys[1].Set.Describe()), true)
 	r.Obs("concurrent_rounds", 1)
+	r.Obs("concurrent_rounds_"+kind, 1)
 	wit := func(extra map[string]any) map[string]any {
-		m := map[string]any{"mode": mode, "storers": storers, "retrievers": retrievers, "store_iterations_each": iters,
-			"key0": keys[0].Set.Witness(), "key1": keys[1].Set.Witness(), "key0_prestored": true}
+		m := map[string]any{"mode": mode, "round": kind, "storer_processes": storers, "retriever_processes": retrievers, "store_iterations_each": iters, "keys": nkeys,
+			"set0": keys[0].Set.Witness(), "set1": keys[1].Set.Witness(), "key0_prestored": !twoStorers}
 		if big {
-			m["key0"] = fmt.Sprintf("d/ with %d files in 3 subdirs + file f", len(keys[0].Set.Files)-1)
+			m["set0"] = fmt.Sprintf("d/ with %d files in 3 subdirs + file f", len(keys[0].Set.Files)-1)
 		}
 		for k, v := range extra {
 			m[k] = v
@@ -854,6 +901,7 @@ func concCase(r *lib.Run, base string, idx int, rng *rand.Rand) {
 	}
 	for _, s := range sres {
 		r.Obs("concurrent_stores", int64(s.Stores))
+		r.Obs("lockstep_barriers_met", int64(s.BarriersMet))
 	}
 	for _, q := range rres {
 		r.Obs("concurrent_retrieve_hits", int64(q.Hits))
@@ -866,8 +914,8 @@ func concCase(r *lib.Run, base string, idx int, rng *rand.Rand) {
 			if mm.Restored == 0 {
 				restored = "nothing"
 			}
-			r.Violation(fmt.Sprintf("concurrent-hit-mismatch/%s/storers=%d/restored=%s", mode, storers, restored),
-				fmt.Sprintf("Retrieve overlapping Store(s) of the same key by %d other process(es) returned true but restored %d of %d entries: %s", storers, mm.Restored, mm.Expected, shortDiff(mm.Diff)),
+			r.Violation(fmt.Sprintf("concurrent-hit-mismatch/%s/%s/restored=%s", mode, kind, restored),
+				fmt.Sprintf("Retrieve overlapping a Store of the same key by another process returned true but restored %d of %d entries: %s", mm.Restored, mm.Expected, shortDiff(mm.Diff)),
 				wit(map[string]any{"mismatch": mm}), idx)
 		}
 	}
@@ -887,21 +935,22 @@ func concCase(r *lib.Run, base string, idx int, rng *rand.Rand) {
 		ks := keys[k]
 		if vr.Hit1 {
 			if d := lib.Diff(ks.Expect, vr.Snap1); len(d) > 0 {
-				r.Violation(fmt.Sprintf("concurrent-final-partial-hit/%s/storers=%d", mode, storers),
-					"after all concurrent stores finished, a fresh Retrieve returns true with a tree that is not the stored one: "+shortDiff(d), wit(map[string]any{"key_index": k, "diff": d}), idx)
+				r.Violation(fmt.Sprintf("concurrent-final-partial-hit/%s/%s", mode, kind),
+					fmt.Sprintf("after all concurrent stores finished, a fresh Retrieve returns true with %d of %d entries: %s", len(vr.Snap1), len(ks.Expect), shortDiff(d)),
+					wit(map[string]any{"key_index": k, "diff": d, "cache_entries": vr.CacheList}), idx)
 			}
 			r.Obs("concurrent_final_hits", 1)
-		} else if storers == 1 {
-			r.Violation(fmt.Sprintf("concurrent-final-miss/%s/storers=1", mode), "a single storer completed its stores (with concurrent retrievers) but a fresh Retrieve misses", wit(map[string]any{"key_index": k}), idx)
+		} else if !twoStorers {
+			r.Violation(fmt.Sprintf("concurrent-final-miss/%s/%s", mode, kind), "a single storer completed its stores (with concurrent retrievers) but a fresh Retrieve misses", wit(map[string]any{"key_index": k}), idx)
 		} else {
 			r.Obs("concurrent_final_miss_with_two_storers", 1)
 		}
 		if !vr.Hit2 || len(lib.Diff(ks.Expect, vr.Snap2)) > 0 {
-			r.Violation(fmt.Sprintf("store-after-concurrency-unfaithful/%s/storers=%d", mode, storers), "after the concurrent round, a complete Store+Retrieve by a fresh process does not restore the tree", wit(map[string]any{"key_index": k}), idx)
+			r.Violation(fmt.Sprintf("store-after-concurrency-unfaithful/%s/%s", mode, kind), "after the concurrent round, a complete Store+Retrieve by a fresh process does not restore the tree", wit(map[string]any{"key_index": k}), idx)
 		}
 	}
 	if r.WantSample() {
-		r.Sample(map[string]any{"kind": "concurrent-round", "mode": mode, "storers": storers, "retrievers": retrievers, "storer_results": sres, "retriever_results": rres})
+		r.Sample(map[string]any{"kind": "concurrent-round", "round": kind, "mode": mode, "storers": storers, "retrievers": retrievers, "storer_results": sres, "retriever_results": rres})
 	}
 }
 
